@@ -16,6 +16,11 @@ def ops_jobs(run: Run, prop: str, quick: bool, n_quick: int = 200, n_thorough: i
         j = run.job(d, want=["manifest"], plan={"fn": "ops", "args": {"seed": seed(), "calls_per_op": 3, "import": True}}, cfg={})
         info[j["id"]] = {"label": label, "cfg": {}, "features": {"sharing", label}, "deterministic_valid": True}
         jobs.append(j)
+    for label, d in docs.union_io_docs():
+        # seven calls per operation: the documented ones walk through the union members of the response in turn
+        j = run.job(d, want=["manifest"], plan={"fn": "ops", "args": {"seed": seed(), "calls_per_op": 7, "import": True, "undocumented_call": 6}}, cfg={"literal_enums": label.endswith("3.1.0")})
+        info[j["id"]] = {"label": label, "cfg": {"literal_enums": label.endswith("3.1.0")}, "features": {"union_io", label}, "deterministic_valid": True}
+        jobs.append(j)
     for label, d, ovr in docs.override_docs():
         cfg = {"content_type_overrides": ovr}
         j = run.job(d, want=["manifest"], plan={"fn": "ops", "args": {"seed": seed(), "calls_per_op": 6, "import": True, "overrides": ovr}}, cfg=cfg)
@@ -50,7 +55,7 @@ def body_class(x: dict) -> str:
     return f"{b['body_type']}:{b['prop_kind']}:{'multi' if b['n_bodies'] > 1 else 'single'}"
 
 
-FLAG_PRIORITY = ["union_model_shadowed", "union_date_datetime", "union_with_any"]
+FLAG_PRIORITY = ["union_model_shadowed", "union_date_datetime", "union_with_any", "union_two_array_members"]
 
 
 def one_flag(flags) -> str:
